@@ -23,14 +23,16 @@ CLAIMS = {
         technique="Coq proof (induction over DSL trees) + model/implementation correspondence"),
     "C01": dict(
         text="Coq theorems: for every interleaving of scalar constraints and LMIs of any sizes the cvxpy emission / dual "
-             "recovery / assignment maps the k-th tracked item to its own main dual (entry equalities skipped, nothing "
-             "dropped or shifted); under the solver assumption (constant Lagrangian = KKT stationarity, Spec/KKT.v) and "
-             "LMIs symmetric as written the exposed multipliers satisfy the certificate identity for all symmetric G and all "
-             "F and the proof reconstruction returns exactly its constant tau; identity + signs + PSD multipliers imply "
-             "objective <= tau on the feasible set; for an LMI not symmetric as written the statement is refuted with a "
-             "witness (known finding F-C01a, replayed on the real code). Tie: real emission, recovery, assignment and "
-             "check_feasibility run on scripted position-tagged duals and compared exactly with the model; real SCS solves "
-             "measure the solver assumption.",
+             "recovery / assignment maps the k-th tracked item to its own main dual and each LMI to its own n*n entry "
+             "multipliers (nothing dropped, duplicated or shifted); under the solver assumption (constant Lagrangian = KKT "
+             "stationarity, Spec/KKT.v), for every declared model whose tracked objects are sent once -- LMIs symmetric as "
+             "written or not -- the exposed multipliers satisfy the certificate identity for all symmetric G and all F and "
+             "the proof reconstruction returns exactly its constant tau; the reported dual matrix is the symmetric part of "
+             "the entry multipliers; identity + signs + PSD multipliers imply objective <= tau on the feasible set; the "
+             "formula used before the repair of F-C01a (/repo bd99691) is kept and refuted as a regression. Tie: real "
+             "emission, recovery, assignment and check_feasibility run on scripted position-tagged duals (duplicated "
+             "objects, second solves, class LMIs not symmetric as written) and compared exactly with the model; real SCS "
+             "solves measure the solver assumption.",
         ref="DESIGN.md 5.1",
         note="solver returns stationarity-satisfying duals (assumed; residual measured each run); PSD multipliers as rank-one "
              "sums, primal matrices as quadratic-form PSD; MOSEK side is C11; tolerance propagation not mechanised",
